@@ -259,6 +259,9 @@ pub fn real_systemd_tier(ctx: &Ctx, samples: &[Vec<String>]) -> Option<RealTier>
   }
   let _ = std::fs::remove_dir_all(&dir);
   let _ = ctx;
+  // a systemd-analyze that dumps nothing at all (other version, no access to the manager's directories) is "unavailable",
+  // not a disagreement
+  if t.agree == 0 { return None; }
   Some(t)
 }
 
